@@ -147,7 +147,16 @@ def run(ctx):
              '<<<<<<< local', '=======', '>>>>>>> remote', '\\ No newline at end of file']
     for t in range(30 if ctx.tier == 'quick' else 600):
         lines = ['%s = %d' % (rng.choice('abcdefgh'), rng.randrange(100)) if rng.random() < 0.6 else rng.choice(nasty) + ' %d' % i for i in range(rng.randrange(2, 7))]
-        i = rng.randrange(len(lines))
+        captured = t % 3 == 2
+        if captured:
+            # the text is itself captured diff output (`!git diff` over files without trailing newline): the same marker lines repeat
+            lines = []
+            for q in range(rng.randrange(2, 5)):
+                lines += ['diff --git a/f%d b/f%d' % (q, q), '@@ -1 +1 @@', '-old %d' % q, '\\ No newline at end of file', '+new %d' % q, '\\ No newline at end of file'][:rng.choice([4, 6, 6])]
+            uniq = [j for j, x in enumerate(lines) if lines.count(x) == 1]
+            i = rng.choice(uniq)
+        else:
+            i = rng.randrange(len(lines))
         new = rng.choice(nasty) if rng.random() < 0.7 else 'value = %d' % rng.randrange(1000)
         mode = rng.choice(['remove', 'add', 'change'])
         if mode == 'remove':
@@ -162,13 +171,23 @@ def run(ctx):
                                                                                'source': ''.join(x + '\n' for x in la)}]}
         b = copy.deepcopy(a)
         b['cells'][0]['source'] = ''.join(x + '\n' for x in lb)
+        if captured and rng.random() < 0.6:
+            # neither text ends with a newline
+            a['cells'][0]['source'] = a['cells'][0]['source'][:-1]
+            b['cells'][0]['source'] = b['cells'][0]['source'][:-1]
+        if captured and rng.random() < 0.5:
+            # ... or it sits in a stream output
+            for nb in (a, b):
+                nb['cells'][0]['outputs'] = [{'output_type': 'stream', 'name': 'stdout', 'text': nb['cells'][0]['source']}]
+                nb['cells'][0]['source'] = '!git diff'
+            removed, added = [], []
         r, _ = c01.impl_diffnb(a, b)
         if r[0] != 'ok':
             continue
         d = to_diffentry_dicts(copy.deepcopy(r[1]))
-        tool = ['git', 'diff', 'difflib'][t % 3]
+        tool = ['git', 'diff', 'difflib'][(t // 3) % 3 if captured else t % 3]
         data = {'a': enc(a), 'b': enc(b), 'ignored': [], 'use_color': False, 'color_words': False, 'tool': tool}
-        ctx.count('changed-line:' + tool)
+        ctx.count('changed-line:' + tool + (':captured-diff-text' if captured else ''))
         ctx.case('L' + canon(a) + canon(b) + tool, True)
         out = render(ctx, 'pretty_print_notebook_diff', lambda cfg: pp.pretty_print_notebook_diff('a.ipynb', 'b.ipynb', nbformat.from_dict(copy.deepcopy(a)), d, cfg),
                      make_cfg(0, False, False, tool), data)
